@@ -36,12 +36,14 @@ type C17Case struct {
 	// MaskDst: the reuse/incr destination carries a mask (bit k set where Dst[k] is odd). The model says
 	// nothing about masked positions; all element types must still treat them alike.
 	MaskDst bool `json:"maskDst,omitempty"`
+	// MaskA: operand a carries a mask (bit k set where Dst[k] is odd): the masked iterator kernels of every type
+	MaskA bool `json:"maskA,omitempty"`
 }
 
 func init() { register("C17.xtype", func() Case { return &C17Case{} }) }
 
 func (c *C17Case) NTKey() string {
-	return fmt.Sprintf("%s|%s|%s|%s|%v|%v|%v|%v|%v|%v", c.Fam, c.Op, c.Form, c.Mode, c.Same, c.Iter, c.Shape, c.A, c.Axes, c.MaskDst)
+	return fmt.Sprintf("%s|%s|%s|%s|%v|%v|%v|%v|%v|%v|%v", c.Fam, c.Op, c.Form, c.Mode, c.Same, c.Iter, c.Shape, c.A, c.Axes, c.MaskDst, c.MaskA)
 }
 
 func (c *C17Case) layout() Layout {
@@ -109,6 +111,12 @@ func (c *C17Case) Run() string {
 				e.Form = "T"
 			}
 			e.A = Opnd{Shape: c.Shape, Codes: c.A, L: lay}
+			if c.MaskA {
+				e.A.Mask = make([]bool, len(c.A))
+				for i := range e.A.Mask {
+					e.A.Mask[i] = c.Dst[i%len(c.Dst)]%2 == 1
+				}
+			}
 			if e.Form == "TT" {
 				e.B = &Opnd{Shape: c.Shape, Codes: c.B, L: lay}
 			} else {
@@ -358,6 +366,14 @@ func TestC17(t *testing.T) {
 					cell(t, "C17", "C17.xtype", fmt.Sprintf("arith/%s/%s/%s/iter=%v", op, form, mode, iter), n, func(rt *rapid.T) Case {
 						return genC17(rt, "arith", op, form, mode, false, iter)
 					})
+					if !iter && mode != "unsafe" {
+						// a masked operand: the mask-aware iterator kernels of every type skip the same positions
+						cell(t, "C17", "C17.xtype", fmt.Sprintf("arith/%s/%s/%s/masked-a", op, form, mode), nCases(2, 30), func(rt *rapid.T) Case {
+							c := genC17(rt, "arith", op, form, mode, false, false)
+							c.MaskA = true
+							return c
+						})
+					}
 					if mode == "incr" || mode == "reuse" {
 						// a masked destination: positions masked there are skipped by the iterator kernels of every type alike
 						cell(t, "C17", "C17.xtype", fmt.Sprintf("arith/%s/%s/%s/iter=%v/masked-dst", op, form, mode, iter), nCases(2, 30), func(rt *rapid.T) Case {
